@@ -108,6 +108,12 @@ claimed["C10"]=dict(
    text="Proved: cache hits without renewal lie inside the entry's validity at the clock readings taken, a renewed TGT session records exactly the KDC reply's values, referral chains are bounded. The protocol-level clauses of the property (what a conformant KDC returns for a login or an SPN, well-formedness of the requests, auto-renewal over time) are not expressible as per-function contracts and are listed as not decided; reply matching is C09.",
    note="Partial claim: see not_decided in the evidence.",
    design="4/C10")
+claimed["C15"]=dict(
+   technique="contract-based deductive verification: exact decode-and-advance contracts on the real ccache readers (byte order, counted strings, sign-extended timestamps) and quantified lookup / filtering contracts with loop invariants on CCache.Contains / GetEntry / GetEntries; discharged by z3/cvc5 via gowp",
+   category="proof",
+   text="Proved for every buffer and cursor: each ccache reader returns exactly the value encoded at the cursor and advances it correctly; entry lookup and configuration-entry filtering return credentials of the cache by full principal-name equality, in order, without writing to the cache. The file-level composition for format versions 1 to 4 and client.NewFromCCache are listed as not decided (partial claim).",
+   note="Trusted: bytes.Buffer/binary.Read models, isNativeEndianLittle. The missing bounds checks of the parser on malformed files are a known finding under C04.",
+   design="4/C15")
 hooks=subprocess.run("git -C /repo log --format='%H %s' | grep ' verif:' | awk '{print $1}'",shell=True,capture_output=True,text=True).stdout.split()
 m={"version":1,
  "setup_cmd":"./setup.sh",
